@@ -59,6 +59,7 @@ enum {
     F_LIST_TOO_SMALL,
     F_AMBIGUOUS,
     F_DEFECT_CLASS,
+    F_LONG_SCHEME,
     F_NFLAGS
 };
 static const char *const s_flag_names[F_NFLAGS] = {
@@ -92,6 +93,7 @@ static const char *const s_flag_names[F_NFLAGS] = {
     "list_form_static_list_too_small_refused",
     "ambiguous_host_colon_slash_weak_oracle",
     "regression_class_input_checked_strictly",
+    "scheme_of_20_to_300_characters",
 };
 
 /* ------------------------------------------------------------------ component classes (DESIGN section 5, C13) */
@@ -760,7 +762,7 @@ static void parse_check(struct gen *g) {
     struct aws_byte_cursor in_cur = cur(in, g->len);
     struct aws_uri uri;
     memset(&uri, 0x5c, sizeof(uri));
-    aws_reset_error();
+    mon_poison_last_error(&mon_case_rng);
     int rc = aws_uri_init_parse(&uri, alloc, &in_cur);
     if (mon_sampling()) {
         mon_sample("parse '%s' -> %s%s%s; ", printable(g->str, g->len), rc ? "rejected" : "accepted", g->ambiguous ? " (ambiguous host:/)" : "",
@@ -944,7 +946,7 @@ static void builder_check(const struct gen *src, bool use_params) {
     ++n_builder;
     struct aws_uri uri;
     memset(&uri, 0x5c, sizeof(uri));
-    aws_reset_error();
+    mon_poison_last_error(&mon_case_rng);
     int rc = aws_uri_init_from_builder_options(&uri, alloc, &opt);
     if (mon_sampling()) {
         mon_sample("build(%s) '%s' -> %s; ", use_params ? "params" : "query string", printable(b.str, b.len), rc ? "rejected" : "accepted");
@@ -1062,7 +1064,7 @@ static void encode_check(bool path, const uint8_t *data, size_t n, size_t prefix
     buf.len = prefix;
     uint8_t *buf0 = buf.buffer;
     struct aws_byte_cursor c = cur(n ? in : (mon_chance(&mon_case_rng, 1, 2) ? NULL : in), n);
-    aws_reset_error();
+    mon_poison_last_error(&mon_case_rng);
     int rc = path ? aws_byte_buf_append_encoding_uri_path(&buf, &c) : aws_byte_buf_append_encoding_uri_param(&buf, &c);
     *(path ? &n_enc_path : &n_enc_param) += 1;
     const char *key = NULL;
@@ -1175,7 +1177,7 @@ static void decode_check(const uint8_t *text, size_t n, size_t prefix, size_t ca
     }
     buf.len = prefix;
     struct aws_byte_cursor c = cur(in, n);
-    aws_reset_error();
+    mon_poison_last_error(&mon_case_rng);
     int rc = aws_byte_buf_append_decoding_uri(&buf, &c);
     ++n_dec;
     const char *key = NULL;
@@ -1276,7 +1278,7 @@ static size_t rnd_text(struct mon_rng *r, uint8_t *out, size_t maxlen, const cha
 static void random_uri_case(void) {
     struct mon_rng *r = &mon_case_rng;
     static struct gen g;
-    static uint8_t b_scheme[16], b_ui[40], b_host[64], b_port[40], b_path[80], b_query[80];
+    static uint8_t b_scheme[320], b_ui[40], b_host[64], b_port[40], b_path[80], b_query[80];
     static const char UNRES[] = "abcxyzABZ019-._~";
     static const char REG[] = "abcxyzABZ019-._~!$&'()*+,;=";
     static const char *const PCT[] = {"%41", "%2F", "%3a", "%25", "%20"};
@@ -1287,6 +1289,15 @@ static void random_uri_case(void) {
         g.has_scheme = true;
         size_t n = 1 + rnd_text(r, b_scheme + 1, 6, "abchtps019+.-", NULL, 0);
         b_scheme[0] = (uint8_t)"ahswf"[mon_below(r, 5)];
+        if (mon_chance(r, 1, 8)) {
+            /* RFC 3986 puts no limit on the scheme: reverse-DNS style application schemes run to 70 characters and more */
+            static const size_t LENS[] = {31, 32, 33, 39, 40, 41, 63, 64, 65, 72, 127, 128, 255, 256, 300};
+            size_t want = mon_chance(r, 1, 2) ? LENS[mon_below(r, sizeof(LENS) / sizeof(LENS[0]))] : 20 + (size_t)mon_below(r, 280);
+            for (n = 1; n < want; ++n) {
+                b_scheme[n] = (uint8_t)"abcdefghijklmnopqrstuvwxyz0123456789+.-"[mon_below(r, 39)];
+            }
+            mon_flag(F_LONG_SCHEME);
+        }
         g.scheme.p = b_scheme;
         g.scheme.n = n;
     }
